@@ -1,0 +1,88 @@
+//go:build verif
+// +build verif
+
+package jmespath
+
+// Hooks for model-based verification (build tag "verif"). They expose the
+// lexer's token stream, a canonical rendering of the AST and step events of
+// the parser and the interpreter. Nothing here changes behaviour.
+
+import "strings"
+
+// VerifEnterHook, when set, is called at every entry of Execute with the node
+// type and the current value. A blocking hook doubles as a scheduler gate.
+var VerifEnterHook func(nodeType string, value interface{})
+
+func verifEnter(node ASTNode, value interface{}) {
+	if h := VerifEnterHook; h != nil {
+		h(node.nodeType.String(), value)
+	}
+}
+
+// VerifParseHook, when set, is called at every nud / led step of the parser.
+var VerifParseHook func(kind string, tokenType string)
+
+func (p *Parser) verifStep(kind string, t tokType) {
+	if h := VerifParseHook; h != nil {
+		h(kind, t.String())
+	}
+}
+
+// VerifToken is one token of the lexer with its byte position and length.
+type VerifToken struct {
+	Type     string
+	Value    string
+	Position int
+	Length   int
+}
+
+// VerifTokenize returns the token stream of the lexer for an expression.
+func VerifTokenize(expression string) ([]VerifToken, error) {
+	tokens, err := NewLexer().tokenize(expression)
+	out := make([]VerifToken, 0, len(tokens))
+	for _, t := range tokens {
+		out = append(out, VerifToken{t.tokenType.String(), t.value, t.position, t.length})
+	}
+	return out, err
+}
+
+// VerifAST renders an AST as nested slices: [kind, value..., children...],
+// including slice bounds (which PrettyPrint shows as pointers).
+func VerifAST(node ASTNode) interface{} {
+	name := strings.TrimPrefix(node.nodeType.String(), "AST")
+	kids := func() []interface{} {
+		out := []interface{}{}
+		for _, c := range node.children {
+			out = append(out, VerifAST(c))
+		}
+		return out
+	}
+	switch node.nodeType {
+	case ASTField, ASTIndex, ASTLiteral:
+		return []interface{}{name, node.value}
+	case ASTComparator:
+		return []interface{}{name, node.value.(tokType).String(), VerifAST(node.children[0]), VerifAST(node.children[1])}
+	case ASTFunctionExpression:
+		return []interface{}{name, node.value, kids()}
+	case ASTMultiSelectList, ASTMultiSelectHash:
+		return []interface{}{name, kids()}
+	case ASTKeyValPair:
+		return []interface{}{name, node.value, VerifAST(node.children[0])}
+	case ASTSlice:
+		parts := []interface{}{}
+		for _, p := range node.value.([]*int) {
+			if p == nil {
+				parts = append(parts, nil)
+			} else {
+				parts = append(parts, *p)
+			}
+		}
+		return []interface{}{name, parts}
+	}
+	return append([]interface{}{name}, kids()...)
+}
+
+// VerifAST renders the AST of a compiled expression.
+func (jp *JMESPath) VerifAST() interface{} {
+	return VerifAST(jp.ast)
+}
